@@ -4,5 +4,5 @@ SPECIFICATION FairSpec
 CONSTANTS
   EmitJson = FALSE
   AllowTruncFault = TRUE
-INVARIANTS AllOrNothing SuccessComplete OnlyOutTouched ExitsCleanly RmMakesPriorIrrelevant
+INVARIANTS AllOrNothing SuccessComplete InfoTouchesNothing OnlyOutTouched ExitsCleanly RmMakesPriorIrrelevant
 PROPERTIES Terminates
